@@ -7,6 +7,15 @@ PROOF part (kernel-checked every run):
   GenProps/C10.lean  allow_block_disjoint, forward_table_sound/exact, observed_forwarded_allowlisted,
                      backfill_only_allowlisted, observed_fallback_transposes_allowlisted — about tables
                      regenerated from the live `_autodiff_utils` and JAX registries (T)
+  Props/C10.lean     + broadcast_batcher_shape (result shape of the batcher, all ranks / arities)
+  Props/C10Rules.lean  fn_batch_rule_correct (FunctionPlugin._batching_rule, ANY per-example function),
+                     ad_pipeline_provenance / orig_rule_only_if_allowlisted / backfill_keeps_existing (forwarding +
+                     backfill as one function of the registries), forwarded_rule_defined_on_new_domain and its
+                     refutation without the operand contract on the live pair (add, jax.numpy.add)
+  Props/C10Reduce.lean reduction_batch_rule_lanewise(_drop): lane b of the batched reduction = reduction of lane b,
+                     any commutative monoid, shared tensor model; normAxes_canonical
+TIE H (round 2, harness/c10_rules.py): the real FunctionPlugin batching rule, the real forwarding + backfill on stub
+  primitives with sentinel rule objects, and the real reduction rule's lanes, each against the Lean driver.
 TIE H: the real `broadcast_batcher_compat` (stub primitive that records what it is bound to) against
   the Lean model `broadcastBatcher` on generated operand shapes × batch-dim placements through
   drivers/C10.lean (out dim, out shape and every element).
@@ -41,17 +50,23 @@ META = {
                   "refutation without it; inline_fresh_sound / inline_no_alias / two_inlinings_no_alias for "
                   "JitPlugin's inlining with fresh variables; allow_block_disjoint, forwarded_only_if_allowlisted "
                   "and inclusion of the live forwarding/backfill decisions and of the rule objects actually "
-                  "shared in JAX's registries in the allowlists. PARTIAL: that the ~300 substitute primitives "
+                  "shared in JAX's registries in the allowlists; broadcast_batcher_shape (result shape, all ranks/arities); "
+                  "fn_batch_rule_correct (vmap of an @onnx_function call, any per-example function); "
+                  "reduction_batch_rule_lanewise(_drop) (lane b of the batched reduction = reduction of lane b, any "
+                  "commutative monoid, negative axes, keepdims); ad_pipeline_provenance (forwarding + backfill as one "
+                  "function of the registries: a primitive ends with the original's rule object only for an allow-listed, "
+                  "not block-listed pair) and forwarded_rule_defined_on_new_domain with its machine-checked refutation "
+                  "without the operand contract on the live pair (add, jax.numpy.add). "
+                  "PARTIAL: that the ~300 substitute primitives "
                   "carry batching/AD rules agreeing with the functions they replace is executed, not proved.",
-    "level_note": "Batcher theorem is about element values at every index of per-example rank (result shapes are "
-                  "tied by the correspondence, not proved). Inlining theorem is on the jaxpr semantics of C01 "
+    "level_note": "Batcher theorems: element values at every index of per-example rank and the result shape. Inlining theorem is on the jaxpr semantics of C01 "
                   "(shared environment, overwrite-on-bind). Trusted: Lean kernel, table extraction, the stub "
                   "primitive used to drive broadcast_batcher_compat. Exploration: seeded subset of "
                   "(function x transformation) in quick, all in thorough.",
     "design_ref": "DESIGN.md §3 C10",
 }
 
-MODS = ["J2O.Props.C10", "J2O.GenProps.C10"]
+MODS = ["J2O.Props.C10", "J2O.Props.C10Rules", "J2O.Props.C10Reduce", "J2O.GenProps.C10"]
 
 
 # ----------------------------------------------------------------------------- T: policy tables
@@ -111,8 +126,9 @@ def tabulate() -> dict:
     for p in stubs:
         ad.primitive_jvps.pop(p, None)
         ad.primitive_transposes.pop(p, None)
+    import c10_rules
     return {"allow": allow, "block": block, "lin": lin, "ftable": ftable, "observed": sorted(observed),
-            "fallback": fallback, "btable": btable}
+            "fallback": fallback, "btable": btable, "adddom": c10_rules.add_domain_table()}
 
 
 def generate(tabs: Optional[dict] = None) -> dict:
@@ -145,6 +161,11 @@ def observedFallbackTransposes : List String := {lean_list(map(lean_str, tabs['f
 /-- (name, did `backfill_missing_transpose_rules` install the fallback on a stub of that name?) -/
 def backfillTable : List (String × Bool) :=
   {lean_list((f"({lean_str(n)}, {lean_bool(b)})" for n, b in tabs['btable']), 3)}
+
+/-- (operand shapes, does lax.add's JVP rule run on them?, does the plugin primitive jax.numpy.add accept them?) -/
+def addDomainTable : List (List (List Nat) × Bool × Bool) :=
+  {lean_list((f"([{', '.join('[' + ', '.join(map(str, sh)) + ']' for sh in shp)}], {lean_bool(a)}, {lean_bool(b)})"
+              for shp, a, b in tabs['adddom']), 2)}
 
 end J2O.Gen.C10
 """
@@ -693,6 +714,57 @@ def explore(chk: Check, rng: common.Rng, thorough: bool, budget_s: float) -> lis
     return results
 
 
+# ----------------------------------------------------------------------------- substitutes with their own batching rule
+
+
+def explore_substitutes(chk: Check, rng: common.Rng, thorough: bool, budget_s: float) -> list[dict]:
+    """EXPLORATION: every leaf substitute primitive that is named after a jax function and has its OWN batching
+    rule, called through the patched library function under vmap (in_axes 0 / 1 / last operand unmapped), ORT vs
+    eager JAX.  thorough: all of them x all three; quick: a seeded sample.  A failure that the UNBATCHED export of
+    the same call shows as well is not a transformation defect (C01/C09 territory) and is only counted."""
+    import c10_rules as R2
+    t0 = time.time()
+    entries, skipped = R2.substitute_catalogue()
+    trs = list(R2.SUB_TRANSFORMS.items())
+    jobs = []
+    if thorough:
+        jobs = [(e, t) for e in entries for t in trs]
+    else:
+        idx = sorted({rng.next() % len(entries) for _ in range(14)}) if entries else []
+        jobs = [(entries[i], trs[rng.next() % len(trs)]) for i in idx]
+    results, exercised = [], set()
+    for (name, f, specs), (tname, T) in jobs:
+        if time.time() - t0 > budget_s:
+            break
+        made = T(f, len(specs))
+        if made is None:
+            if thorough:
+                continue
+            made = trs[0][1](f, len(specs))
+            tname = trs[0][0]
+        tf, axes = made
+        xs = R2.substitute_inputs(specs, axes, rng)
+        r = run_transformed("prim:" + name, tname, f, tf, xs)
+        if r["status"] in ("mismatch", "export_error", "ort_error"):
+            base = run_transformed("prim:" + name, "none", f, f, R2.substitute_inputs(specs, [None] * len(specs), rng))
+            if base["status"] != "ok":
+                r = dict(r, status="baseline_failure", baseline=base["status"])
+        exercised.add(name)
+        results.append(r)
+        chk.count({"stage": "substitute_vmap", "fn": name, "transform": tname, "status": r["status"]},
+                  nontrivial=r["status"] in ("ok", "mismatch"), sample_every=25)
+    by: dict[str, int] = {}
+    for r in results:
+        by[r["status"]] = by.get(r["status"], 0) + 1
+    chk.info("substitute_vmap_exploration", {
+        "label": "EXPLORATION (not proof): substitute primitives with their own batching rule, under vmap",
+        "primitives_with_own_batching_rule_and_generic_call": len(entries), "exercised_this_run": len(exercised),
+        "runs": len(results), "status_counts": by, "not_callable_generically": skipped,
+        "baseline_failures": sorted({r["fn"] for r in results if r["status"] == "baseline_failure"}),
+        "wall_s": round(time.time() - t0, 1)})
+    return results
+
+
 # ----------------------------------------------------------------------------- the check
 
 
@@ -716,7 +788,48 @@ def run(chk: Check) -> None:
     chk.log(f"batcher correspondence done at {time.time() - t0:.1f} s")
     red_bad = validate_reduction_rule(chk, rng, thorough)
     chk.log(f"reduction-rule correspondence done at {time.time() - t0:.1f} s")
+    import c10_rules as R2
+    fn_bad = R2.validate_fn_rule(chk, rng, thorough)
+    ad_bad = R2.validate_ad_pipeline(chk, rng, thorough, tabs)
+    lane_bad = R2.validate_redlane(chk, rng, thorough)
+    chk.log(f"round-2 correspondences (fn rule, AD registries, reduction lanes) done at {time.time() - t0:.1f} s")
+    chk.info("add_forwarding_contract", {
+        "pair_allowlisted": ["add", "jax.numpy.add"] in [list(p) for p in tabs["allow"]],
+        "shape_pairs_accepted_by_jnp_add_only": [[list(a), list(b)] for (a, b), lx, jn in tabs["adddom"] if jn and not lx][:8],
+        "note": "contract dom(new) <= dom(orig) of forwarded_rule_defined_on_new_domain is violated by this pair "
+                "(F-C10-add-forwarded-ad-rule)"})
     found = False
+    if fn_bad:
+        wrong = [b for b in fn_bad if not b["real_result_is_lanewise_F"]]
+        found = found or bool(wrong)
+        chk.violation({"correspondence": "the FunctionPlugin batching rule differs from the proven model `fnBatchRule` "
+                                         "(or its result is not lane-wise the per-example function)",
+                       "cases": (wrong + fn_bad)[:20], "how": "harness/c10_rules.py validate_fn_rule"},
+                      name="fn-batch-rule-correspondence", no_failing_input=not wrong)
+    if ad_bad:
+        def leaks(b):       # a rule object of another primitive on a pair that is not allow-listed
+            allow = {tuple(p) for p in b["scenario"]["A"]}
+            if b["real"] == "raises":
+                return False
+            for ent in b["real"].split(" "):
+                n, rules = ent.rsplit(":", 1)
+                for r in rules.split("/"):
+                    if r.startswith("own.") and r[4:] != n and (r[4:], n) not in allow:
+                        return True
+            return False
+        wrong = [b for b in ad_bad if leaks(b)]
+        found = found or bool(wrong)
+        chk.violation({"correspondence": "register_original_rule_forwarding + backfill_missing_transpose_rules differ from "
+                                         "the proven model `adPipeline` on stub primitives (registries after the run)",
+                       "cases": (wrong + ad_bad)[:12], "rule_leaked_to_non_allowlisted_pair": bool(wrong),
+                       "how": "harness/c10_rules.py validate_ad_pipeline"},
+                      name="ad-pipeline-correspondence", no_failing_input=not wrong)
+    if lane_bad:
+        found = True
+        chk.violation({"correspondence": "a lane of what register_reduction_batch_rule returns is not the per-example "
+                                         "reduction of that lane (tensor-model expression of reduction_batch_rule_lanewise)",
+                       "cases": lane_bad[:20], "how": "harness/c10_rules.py validate_redlane"},
+                      name="reduction-lanewise-correspondence")
     if red_bad:
         # a disagreement here IS a concrete failing input of the real rule (operand shape, bdim, axes, keepdims)
         found = any(not b["result_is_per_example_reduction"] for b in red_bad)
@@ -725,9 +838,23 @@ def run(chk: Check) -> None:
                        "cases": red_bad[:20], "how": "harness/props/c10.py validate_reduction_rule"},
                       name="reduction-rule-correspondence", no_failing_input=not found)
     if bat_bad:
+        # search the real code for a concrete failing input: the real batcher's result against vmap semantics,
+        # first on the disagreeing cases that do not involve the listed lower-rank defect
+        failing = []
+        for b in sorted(bat_bad, key=lambda b: b["lower_rank_mapped"])[:60]:
+            w = R2.batcher_lane_oracle([(tuple(s), k, off) for s, k, off in b["operands"]], _StubPrim)
+            if w is not None:
+                w["lower_rank_mapped_operand"] = b["lower_rank_mapped"]
+                failing.append(w)
+        new_fail = [w for w in failing if not w["lower_rank_mapped_operand"]]
+        found = found or bool(new_fail)
         chk.violation({"correspondence": "broadcast_batcher_compat differs from the proven model `broadcastBatcher`",
-                       "cases": bat_bad[:20]}, name="batcher-correspondence", no_failing_input=True)
+                       "failing_inputs_of_the_real_batcher": (new_fail + failing)[:12],
+                       "cases": bat_bad[:20], "how": "harness/c10_rules.py batcher_lane_oracle"},
+                      name="batcher-correspondence", no_failing_input=not new_fail)
     res = explore(chk, rng, thorough, 1e9 if thorough else 150.0)
+    res += [r for r in explore_substitutes(chk, rng, thorough, 1e9 if thorough else 45.0)
+            if r["status"] != "baseline_failure"]
     for r in res:
         if r["status"] in ("mismatch", "export_error", "ort_error"):
             key = {"fn": r["fn"], "transform": r["transform"], "family": family_of(r["transform"]),
@@ -751,11 +878,16 @@ def run(chk: Check) -> None:
         "mapped operands: batch dimension in range, common batch size; rank hypothesis hR (full rank or per-example scalar)",
         "jaxpr environments are shared and overwrite on bind (C01 model); renaming injective and fresh",
         "rule identity (`is`) in JAX's registries is how forwarding is observed",
+        "AD registries model: rule objects by identity (own(owner) / generic fallback); initial registries hold every "
+        "primitive's own rules; forwarding requests precede the backfill; no chains in the allow-list (allow_no_chain)",
+        "reduction lanes: sums over a commutative monoid on the shared tensor model (exact arithmetic)",
+        "FunctionPlugin rule: single-result per-example function, arbitrary (not necessarily pointwise)",
         "exploration oracle as in C01 (tolerance from JAX's own f32/f64 discrepancy)",
     ]
     chk.coverage["rule"] = ("batcher: generated operand lists (arity 1..4, per-example shape variants, every batch-dim "
                             "placement, unmapped/scalar/lower-rank) — non-trivial = the real batcher returned a value; "
-                            "policy: complete decision tables; exploration: (function, transformation) pairs — "
+                            "FunctionPlugin rule / AD registries / reduction lanes: generated operand lists and registry scenarios against "
+                            "the real functions; policy: complete decision tables; exploration: (function, transformation) pairs — "
                             "non-trivial = exported and compared")
     chk.coverage["exhaustive"] = False
 
@@ -764,6 +896,15 @@ def replay(path: str) -> int:
     rep = json.loads(open(path).read())
     print(json.dumps(rep, indent=1, default=str)[:3000])
     r = rep.get("result")
+    if r and str(r.get("fn", "")).startswith("prim:"):
+        import c10_rules as R2
+        ents = {e[0]: e for e in R2.substitute_catalogue()[0]}
+        name, f, specs = ents[r["fn"][5:]]
+        tf, axes = R2.SUB_TRANSFORMS[r["transform"]](f, len(specs))
+        xs = R2.substitute_inputs(specs, axes, common.Rng(int(rep.get("seed", 0))))
+        out = run_transformed(r["fn"], r["transform"], f, tf, xs)
+        print(json.dumps(out, indent=1, default=str)[:2000])
+        return 1 if out["status"] != "ok" else 0
     if r and "fn" in r:
         cat = {c[0]: c for c in fn_catalogue()}
         trs = dict(transformations())
